@@ -185,14 +185,29 @@ def drive(sc):
             evs.append({"ev": "Cmp", "a": a, "b": b, "eq": bool(ga == gb), "ne": bool(ga != gb), "lt": bool(ga < gb),
                         "gt_rev": bool(gb < ga), "hasheq": hash(ga) == hash(gb)})
     elif k == "edit":
-        for s, t in sc["pairs"]:
+        # The result of a call must depend on its arguments only, so the ORDER of the calls on one pair is varied:
+        # unbanded first / bands ascending first / bands descending first, and every call is made twice in some orders.
+        for n, (s, t) in enumerate(sc["pairs"]):
             ss = "".join(LETTERS[c] for c in s)
             tt = "".join(LETTERS[c] for c in t)
             if sc.get("bytes"):
                 ss, tt = ss.encode(), tt.encode()
-            evs.append({"ev": "Edit", "s": s, "t": t, "unb": int(edit_distance(ss, tt)),
-                        "banded": [int(edit_distance(ss, tt, b)) for b in range(BANDS)],
-                        "kind": "bytes" if sc.get("bytes") else "str"})
+            order = n % 3
+            kind = "bytes" if sc.get("bytes") else "str"
+            if order == 0:
+                unb = int(edit_distance(ss, tt))
+                banded = [int(edit_distance(ss, tt, b)) for b in range(BANDS)]
+                evs.append({"ev": "Edit", "s": s, "t": t, "unb": unb, "banded": banded, "kind": kind, "order": "unbanded-first"})
+            elif order == 1:
+                banded = [int(edit_distance(ss, tt, b)) for b in range(BANDS)]
+                unb = int(edit_distance(ss, tt))
+                evs.append({"ev": "Edit", "s": s, "t": t, "unb": unb, "banded": banded, "kind": kind, "order": "bands-ascending-first"})
+            else:
+                down = [int(edit_distance(ss, tt, b)) for b in reversed(range(BANDS))][::-1]
+                unb = int(edit_distance(ss, tt))
+                up = [int(edit_distance(ss, tt, b)) for b in range(BANDS)]
+                evs.append({"ev": "Edit", "s": s, "t": t, "unb": unb, "banded": down, "kind": kind, "order": "bands-descending-first"})
+                evs.append({"ev": "Edit", "s": s, "t": t, "unb": int(edit_distance(ss, tt)), "banded": up, "kind": kind, "order": "repeated"})
     return evs
 
 
